@@ -1,4 +1,5 @@
 import SciVerif.Tie.Task
+import SciVerif.Model.Fmt
 /-!
 Line-protocol driver (Tie B): one request per line on stdin (tab separated), one response line.
 It runs the *executable models*, instantiated with the semantics records Tie A regenerated from
@@ -147,6 +148,32 @@ def c01Search (sem : Sem) : Option String :=
   found
 end TaskSim
 
+/-! ## pure string requests -/
+namespace Pure
+open Str Fmt
+
+def US : String := "\x1f"
+def RS : String := "\x1e"
+def GS : String := "\x1d"
+
+def lst (s : String) : List String := if s.isEmpty then [] else s.splitOn US
+def kvs (s : String) : List (S × S) :=
+  (lst s).filterMap fun item => match item.splitOn RS with
+    | [k, v] => some (k.toList, v.toList)
+    | _ => none
+def kvl (s : String) : List (S × List S) :=
+  (lst s).filterMap fun item => match item.splitOn RS with
+    | [k, v] => some (k.toList, (if v.isEmpty then [] else v.splitOn GS).map String.toList)
+    | _ => none
+def str (s : S) : String := String.ofList s
+def showB (b : Bool) : String := if b then "1" else "0"
+
+def fmtEnv (pattern : String) (ins subs outs params tags prepend : String) : Env :=
+  { portInfos := discoverPorts pattern.toList, inPaths := kvs ins, inStream := [], subs := kvl subs,
+    outPaths := kvs outs, params := kvs params, tags := kvs tags, prepend := prepend.toList }
+
+end Pure
+
 def handle (line : String) : String :=
   match line.splitOn "\t" with
   | ["sem"] => semLine
@@ -181,6 +208,39 @@ def handle (line : String) : String :=
     match TaskSim.stateAt taskSem c preF pt j.toNat! with
     | some s => TaskSim.showSt c s
     | none => "unreachable"
+  | ["enc", p] => Pure.str (Str.encodeParent p.toList)
+  | ["dec", p] => Pure.str (Str.decodeParent p.toList)
+  | ["tmppath", p] => Pure.str (Str.tempPath p.toList)
+  | ["decextra", p] => Pure.str (Str.decodeExtra p.toList)
+  | ["prepend", p] => Pure.str (Str.prependParent p.toList)
+  | ["validpath", p] => Pure.showB (Str.pathIsValid p.toList)
+  | ["sanitize", p] => Pure.str (Str.sanitize p.toList)
+  | ["splitpaths", p] => Pure.US.intercalate ((Str.splitAllPaths p.toList).map Pure.str)
+  | ["mods", p, ms] => Pure.str (Str.applyPathModifiers p.toList ((Pure.lst ms).map String.toList))
+  | ["placeholders", pat] =>
+    Pure.US.intercalate ((Str.placeholders pat.toList).map fun ph =>
+      Pure.RS.intercalate [Pure.str ph.full, Pure.str ph.typ, Pure.str ph.rest])
+  | ["ports", pat] =>
+    let ports := ((Fmt.discoverPorts pat.toList).map fun (n, i) => (Pure.str n, i)).toArray.qsort (fun a b => a.1 < b.1)
+    Pure.US.intercalate (ports.toList.map fun (n, i) =>
+      Pure.RS.intercalate [n, Pure.str i.typ, Pure.str i.ext, Pure.showB i.doStream, Pure.showB i.join, Pure.str i.joinSep])
+  | ["fmtcmd", pat, ins, subs, outs, params, tags, prepend] =>
+    match Fmt.formatCommand pat.toList (Pure.fmtEnv pat ins subs outs params tags prepend) with
+    | some c => "OK\t" ++ Pure.str c
+    | none => "FAIL"
+  | ["fmtspec", pat, ins, subs, outs, params, tags, prepend] =>
+    match Fmt.fmtSpec (Pure.fmtEnv pat ins subs outs params tags prepend) (Str.tokenize pat.toList) with
+    | some c => "OK\t" ++ (if prepend.isEmpty then "" else prepend ++ " ") ++ Pure.str c
+    | none => "FAIL"
+  | ["setout", pat, ins, params, tags] =>
+    match Fmt.setOutPath pat.toList { inPaths := Pure.kvs ins, params := Pure.kvs params, tags := Pure.kvs tags, outFuncs := [] } with
+    | some c => "OK\t" ++ Pure.str c
+    | none => "FAIL"
+  | ["defpath", proc, out, ext, ins, params, tags] =>
+    Pure.str (Fmt.defaultPath proc.toList out.toList ext.toList (Pure.kvs ins) (Pure.kvs params) (Pure.kvs tags))
+  | ["tmpdir", name, ins, subs, params, tags] =>
+    let id : Fmt.Identity := { name := name.toList, ins := Pure.kvs ins, subs := Pure.kvl subs, params := Pure.kvs params, tags := Pure.kvs tags }
+    Pure.str (Fmt.pathPrefix id) ++ "\t" ++ Pure.str (Fmt.preimage id)
   | ["task.c01search"] =>
     match TaskSim.c01Search taskSem with
     | none => "none"
